@@ -144,7 +144,22 @@ def r3b_cache_holds_snapshot_objects_only(ctx):
             helper = (dotted(c.func) or '').rsplit('.', 1)[-1]
             arg = c.args[0] if c.args else None
             fixed = isinstance(arg, (ast.Constant, ast.JoinedStr)) or (isinstance(arg, ast.Attribute) and arg.attr.isupper())
-            where_ok = top.name.startswith('_download_snapshot') or top.name == '_load_snapshots' or (helper == '_delete_cached' and top.name in ('delete_snapshots', 'delete_objects'))
+            def _allowed(tname):
+                return tname.startswith('_download_snapshot') or tname == '_load_snapshots' or (helper == '_delete_cached' and tname in ('delete_snapshots', 'delete_objects'))
+
+            where_ok = _allowed(top.name)
+            if not where_ok and top.parent is None:
+                # a private helper method: judged by who uses it
+                users = set()
+                for g in list(cls.methods.values()) + [x for m_ in cls.methods.values() for x in m_.all_nested()]:
+                    if g is top or any(g is y for y in top.all_nested()):
+                        continue
+                    if any(isinstance(a_, ast.Attribute) and a_.attr == top.name for a_ in ast.walk(g.node)):
+                        gt = g
+                        while gt.parent is not None:
+                            gt = gt.parent
+                        users.add(gt.name)
+                where_ok = top.name.startswith('_') and all(_allowed(u) for u in users)
             ctx.check(
                 not fixed and where_ok,
                 'C18.R3',
